@@ -222,6 +222,31 @@ def emit(repo, spec, H):
     defn("lut_dimX", ["nentries"], nat_expr(xs[0], lren, ["nentries"]))
     defn("lut_dimY", ["nentries"], nat_expr(ys[0], lren, ["nentries"]))
 
+    # ---------------- number-type record written by GRIupdatemeta, size lookup of DFKNTsize ----------------
+    ub = H.func_body(txt, "GRIupdatemeta")
+    ub = ub[:ub.index("Hputelement")]           # the image's NT record is the first element written
+    env = {}
+    nren = [("img_ptr->img_dim.nt", "nt"), ("img_ptr->img_dim.file_nt_subclass", "fsub")]
+
+    def zexpr(e):
+        for a, b in nren:
+            e = e.replace(a, b)
+        return H.P(e, ["nt", "fsub"], env).ternary_all()
+    m1 = re.search(r"ntstring\s*\[\s*1\s*\]\s*=\s*([^;]+);", ub)
+    m3 = re.findall(r"(?:if\s*\(([^;{}]*?)\)\s*)?ntstring\s*\[\s*3\s*\]\s*=\s*([^;]+);", ub)
+    if not m1 or len(m3) != 2 or m3[0][0] or not m3[1][0]:
+        raise ValueError("gr_exprs: unexpected number-type record code in GRIupdatemeta: %r" % (m3,))
+    L.append("(* ---- GRIupdatemeta: bytes 1 (type) and 3 (class / subclass) of the image's DFTAG_NT record ---- *)")
+    L.append("Definition nt_rec_type (nt fsub : Z) : Z := %s." % zexpr(m1.group(1)))
+    L.append("Definition nt_rec_class (nt fsub : Z) : Z := if Z.eqb %s 0 then %s else %s." % (
+        zexpr(m3[1][0]), zexpr(m3[0][1]), zexpr(m3[1][1])))
+    cb = H.func_body(H.src(repo, "hdf/src/dfconv.c"), "DFKNTsize")
+    ms = re.search(r"switch\s*\(([^{]*)\)\s*\{", cb)
+    if not ms:
+        raise ValueError("gr_exprs: switch selector of DFKNTsize not found")
+    L.append("(* dfconv.c: DFKNTsize switches on this expression *)")
+    L.append("Definition dfkntsize_selector (number_type : Z) : Z := %s." % H.P(ms.group(1), ["number_type"], env).ternary_all())
+
     # ---------------- old-style run-length coder (hdf/src/dfrle.c) ----------------
     rt = H.src(repo, "hdf/src/dfrle.c")
     eb = H.func_body(rt, "DFCIrle")
